@@ -435,7 +435,7 @@ func Guarded(p *core.Program) *guardedResult {
 }
 
 // R01 checks every access against the absolute lockset.
-func R01(scope func(a access) bool, floors map[string]int) Rule {
+func R01(floors map[string]int) Rule {
 	return Rule{Name: "R01", Run: func(c *core.Ctx) {
 		la := Locks(c.P)
 		gr := Guarded(c.P)
@@ -448,9 +448,6 @@ func R01(scope func(a access) bool, floors map[string]int) Rule {
 			base := fmt.Sprintf("%s/%s.%s/%s", fname, a.spec.typ, a.spec.field, a.what)
 			counter[base]++
 			construct := fmt.Sprintf("%s#%d", base, counter[base])
-			if scope != nil && !scope(a) {
-				continue
-			}
 			c.Fn(fname)
 			perField[a.spec.typ+"."+a.spec.field]++
 			held := la.AbsAt(a.instr)[a.spec.lock]
@@ -465,9 +462,6 @@ func R01(scope func(a access) bool, floors map[string]int) Rule {
 			}
 		}
 		for _, e := range gr.exempt {
-			if scope != nil && !scope(e) {
-				continue
-			}
 			c.Infof("R01", fmt.Sprintf("exempt/%s/%s.%s", core.FuncName(e.fn), e.spec.typ, e.spec.field), e.instr.Pos(), "exempt: %s", e.what)
 		}
 		for f, min := range floors {
